@@ -135,15 +135,12 @@ Proof.
   rewrite !andb_true_iff. intros [[H1 H2] H3]. apply String.eqb_eq in H1. apply Bool.eqb_prop in H3.
   destruct (list_eq_dec string_dec l1 l2); [|discriminate]. now subst.
 Qed.
-Definition the_collision := "cyclopentane".
-
-(* every (lower-cased) alias of every adsorbate, except the one colliding string, resolves to that adsorbate *)
+(* every (lower-cased) alias of every adsorbate resolves to that adsorbate *)
 Definition resolves_chk (L : list ads) : bool :=
-  forallb (fun a => forallb (fun al => String.eqb al the_collision ||
-                        match find L al with Some b => ads_eqb b a | None => false end) (a_alias a)) L.
-(* no string other than the colliding one is an alias of two different adsorbates *)
+  forallb (fun a => forallb (fun al => match find L al with Some b => ads_eqb b a | None => false end) (a_alias a)) L.
+(* no string is an alias of two different adsorbates *)
 Definition unique_chk (L : list ads) : bool :=
-  forallb (fun a => forallb (fun b => forallb (fun al => String.eqb al the_collision || negb (smem al (a_alias b)) || ads_eqb a b)
+  forallb (fun a => forallb (fun b => forallb (fun al => negb (smem al (a_alias b)) || ads_eqb a b)
                                         (a_alias a)) L) L.
 Fixpoint nodupb (l : list string) : bool := match l with [] => true | x :: r => negb (smem x r) && nodupb r end.
 Definition ascii_chk (L : list ads) : bool :=
@@ -161,52 +158,38 @@ Proof.
   intros H a Ha. unfold ascii_chk in H. rewrite forallb_forall in H. specialize (H a Ha).
   apply andb_true_iff in H. destruct H as [H1 H2]. split; [assumption|]. now rewrite forallb_forall in H2.
 Qed.
-Lemma gen_alias_resolves : resolves_chk L = true -> forall a al s, In a L -> In al (a_alias a) -> al <> the_collision ->
+Lemma gen_alias_resolves : resolves_chk L = true -> forall a al s, In a L -> In al (a_alias a) ->
   lower s = al -> find L s = Some a /\ set_adsorbate L s = a.
 Proof.
-  intros H a al s Ha Hal Hne Hs. unfold resolves_chk in H. rewrite forallb_forall in H. specialize (H a Ha).
-  rewrite forallb_forall in H. specialize (H al Hal). apply orb_true_iff in H. destruct H as [H|H].
-  - apply String.eqb_eq in H. contradiction.
-  - assert (E : find L s = Some a).
-    { rewrite find_lower, Hs. destruct (find L al) as [b|]; [|discriminate]. now rewrite (ads_eqb_eq _ _ H). }
-    split; [assumption|]. unfold set_adsorbate. now rewrite E.
+  intros H a al s Ha Hal Hs. unfold resolves_chk in H. rewrite forallb_forall in H. specialize (H a Ha).
+  rewrite forallb_forall in H. specialize (H al Hal).
+  assert (E : find L s = Some a).
+  { rewrite find_lower, Hs. destruct (find L al) as [b|]; [|discriminate]. now rewrite (ads_eqb_eq _ _ H). }
+  split; [assumption|]. unfold set_adsorbate. now rewrite E.
 Qed.
 Lemma gen_name_resolves : resolves_chk L = true ->
-  forallb (fun a => negb (String.eqb (lower (a_name a)) the_collision) || String.eqb (a_name a) the_collision) L = true ->
-  forall a s, In a L -> a_name a <> the_collision -> lower s = lower (a_name a) -> find L s = Some a.
+  forall a s, In a L -> lower s = lower (a_name a) -> find L s = Some a /\ set_adsorbate L s = a.
 Proof.
-  intros H Hc a s Ha Hne Hs.
+  intros H a s Ha Hs.
   assert (Hin : In (lower (a_name a)) (a_alias a)).
   { destruct (Hnorm a Ha) as (n & x & b & ->). simpl. apply norm_alias_has_name. }
-  assert (Hl : lower (a_name a) <> the_collision).
-  { rewrite forallb_forall in Hc. specialize (Hc a Ha). apply orb_true_iff in Hc. destruct Hc as [Hc|Hc].
-    - apply negb_true_iff, String.eqb_neq in Hc. assumption.
-    - apply String.eqb_eq in Hc. contradiction. }
-  exact (proj1 (gen_alias_resolves H a _ s Ha Hin Hl Hs)).
+  exact (gen_alias_resolves H a _ s Ha Hin Hs).
 Qed.
 Lemma gen_alias_unique : unique_chk L = true -> forall a b al, In a L -> In b L -> In al (a_alias a) -> In al (a_alias b) ->
-  al <> the_collision -> a = b.
+  a = b.
 Proof.
-  intros H a b al Ha Hb Hal Hbl Hne. unfold unique_chk in H. rewrite forallb_forall in H. specialize (H a Ha).
+  intros H a b al Ha Hb Hal Hbl. unfold unique_chk in H. rewrite forallb_forall in H. specialize (H a Ha).
   rewrite forallb_forall in H. specialize (H b Hb). rewrite forallb_forall in H. specialize (H al Hal).
-  rewrite !orb_true_iff in H. destruct H as [[H|H]|H].
-  - apply String.eqb_eq in H. contradiction.
+  rewrite !orb_true_iff in H. destruct H as [H|H].
   - apply negb_true_iff in H. apply smem_In in Hbl. congruence.
   - now apply ads_eqb_eq.
 Qed.
-Definition refuted_chk (wa wb : ads) : bool :=
-  existsb (ads_eqb wa) L && existsb (ads_eqb wb) L
-  && match find L (a_name wb) with Some x => ads_eqb x wa | None => false end
-  && ads_eqb (set_adsorbate L "Cyclopentane") wa.
-Lemma existsb_ads_In w : existsb (ads_eqb w) L = true -> In w L.
-Proof. intro H. apply existsb_exists in H. destruct H as (x & Hx & E). now rewrite (ads_eqb_eq _ _ E). Qed.
-Lemma gen_refuted wa wb : refuted_chk wa wb = true ->
-  In wa L /\ In wb L /\ find L (a_name wb) = Some wa /\ set_adsorbate L "Cyclopentane" = wa.
+(* "every name or alias designates exactly one adsorbate", as the implementation tests it: for ANY string s (any letter
+   case), at most one entry of the registry compares equal to it *)
+Lemma gen_eq_str_unique : unique_chk L = true -> forall a b s, In a L -> In b L -> eq_str a s = true -> eq_str b s = true -> a = b.
 Proof.
-  unfold refuted_chk. rewrite !andb_true_iff. intros [[[H1 H2] H3] H4].
-  split; [now apply existsb_ads_In|]. split; [now apply existsb_ads_In|].
-  split; [|now apply ads_eqb_eq].
-  destruct (find L (a_name wb)) as [x|]; [|discriminate]. now rewrite (ads_eqb_eq _ _ H3).
+  intros H a b s Ha Hb Ea Eb. unfold eq_str in *. apply smem_In in Ea. apply smem_In in Eb.
+  exact (gen_alias_unique H a b (lower s) Ha Hb Ea Eb).
 Qed.
 End Lift.
 Lemma nodupb_NoDup l : nodupb l = true -> NoDup l.
@@ -221,7 +204,7 @@ Proof. intros Ha. apply in_map_iff in Ha. destruct Ha as ([[n rows] b] & <- & _)
 
 (* the computational facts about THIS tree, each checked once by the VM *)
 Lemma reg_counts : length reg_db = 176%nat /\ length reg_json = 176%nat
-                   /\ length (concat (map a_alias reg_db)) = 818%nat
+                   /\ length (concat (map a_alias reg_db)) = 817%nat
                    /\ length (filter a_backend reg_db) = 81%nat.
 Proof. vm_compute. repeat split. Qed.
 Lemma json_db_agree_lem : reg_json = reg_db.
@@ -230,15 +213,6 @@ Lemma resolves_chk_true : resolves_chk reg_db = true. Proof. vm_compute. reflexi
 Lemma unique_chk_true : unique_chk reg_db = true. Proof. vm_compute. reflexivity. Qed.
 Lemma ascii_chk_true : ascii_chk reg_db = true. Proof. vm_compute. reflexivity. Qed.
 Lemma nodupb_names_true : nodupb (map a_name reg_db) = true. Proof. vm_compute. reflexivity. Qed.
-Lemma name_lower_chk_true :
-  forallb (fun a => negb (String.eqb (lower (a_name a)) the_collision) || String.eqb (a_name a) the_collision) reg_db = true.
-Proof. vm_compute. reflexivity. Qed.
-(* the property as stated (every name or alias designates exactly one adsorbate; every adsorbate is found by its name)
-   is FALSE on this tree: 'cyclopentane' is an alias of cyclopropane (listed first) and the name of cyclopentane *)
-Definition w_cyclopropane := mkA "cyclopropane" ["cyclopentane"; "cyclopropane"] true.
-Definition w_cyclopentane := mkA "cyclopentane" ["cyclopentane"] true.
-Lemma refuted_chk_true : refuted_chk reg_db w_cyclopropane w_cyclopentane = true. Proof. vm_compute. reflexivity. Qed.
-
 Lemma reg_db_norm : forall a, In a reg_db -> exists n al b, a = new_ads n al b.
 Proof. exact (map_new_ads_norm ads_db). Qed.
 Lemma names_distinct_lem : NoDup (map a_name reg_db).
@@ -247,24 +221,24 @@ Lemma all_ascii_lem : forall a, In a reg_db -> str_ascii7 (a_name a) = true /\ f
 Proof. exact (gen_all_ascii reg_db ascii_chk_true). Qed.
 Lemma reg_alias_lower : forall a al, In a reg_db -> In al (a_alias a) -> lower al = al.
 Proof. exact (gen_alias_lower reg_db reg_db_norm). Qed.
-(* bound: the 176 adsorbates and the 818 alias strings of THIS tree *)
-Lemma alias_resolves_partial_lem : forall a al s, In a reg_db -> In al (a_alias a) -> al <> the_collision ->
+(* bound: the 176 adsorbates and the 817 alias strings of THIS tree; no string is exempted *)
+Lemma alias_resolves_lem : forall a al s, In a reg_db -> In al (a_alias a) ->
   lower s = al -> find reg_db s = Some a /\ set_adsorbate reg_db s = a.
 Proof. exact (gen_alias_resolves reg_db resolves_chk_true). Qed.
-Lemma name_resolves_partial_lem : forall a s, In a reg_db -> a_name a <> the_collision -> lower s = lower (a_name a) ->
-  find reg_db s = Some a.
-Proof. exact (gen_name_resolves reg_db reg_db_norm resolves_chk_true name_lower_chk_true). Qed.
-Lemma alias_unique_partial_lem : forall a b al, In a reg_db -> In b reg_db -> In al (a_alias a) -> In al (a_alias b) ->
-  al <> the_collision -> a = b.
+Lemma name_resolves_lem : forall a s, In a reg_db -> lower s = lower (a_name a) ->
+  find reg_db s = Some a /\ set_adsorbate reg_db s = a.
+Proof. exact (gen_name_resolves reg_db reg_db_norm resolves_chk_true). Qed.
+Lemma alias_unique_lem : forall a b al, In a reg_db -> In b reg_db -> In al (a_alias a) -> In al (a_alias b) -> a = b.
 Proof. exact (gen_alias_unique reg_db unique_chk_true). Qed.
-Lemma alias_unique_refuted_lem :
-  exists a b, In a reg_db /\ In b reg_db /\ a_name a = "cyclopropane" /\ a_name b = "cyclopentane"
-    /\ In "cyclopentane" (a_alias a) /\ In "cyclopentane" (a_alias b)
-    /\ find reg_db (a_name b) = Some a /\ set_adsorbate reg_db "Cyclopentane" = a /\ a <> b.
+Lemma string_designates_at_most_one_lem : forall a b s, In a reg_db -> In b reg_db ->
+  eq_str a s = true -> eq_str b s = true -> a = b.
+Proof. exact (gen_eq_str_unique reg_db unique_chk_true). Qed.
+(* the hypotheses are satisfiable: the registry has entries with several aliases *)
+Lemma alias_resolves_example : exists a, In a reg_db /\ a_name a = "cyclopentane" /\ find reg_db "CycloPentane" = Some a
+  /\ set_adsorbate reg_db "CYCLOPENTANE" = a.
 Proof.
-  destruct (gen_refuted reg_db _ _ refuted_chk_true) as (H1 & H2 & H3 & H4).
-  exists w_cyclopropane, w_cyclopentane.
-  split; [exact H1|]. split; [exact H2|].
-  split; [reflexivity|]. split; [reflexivity|]. split; [now left|]. split; [now left|].
-  split; [exact H3|]. split; [exact H4|discriminate].
+  assert (H : existsb (fun a => String.eqb (a_name a) "cyclopentane") reg_db = true) by (vm_compute; reflexivity).
+  apply existsb_exists in H. destruct H as (a & Ha & En). apply String.eqb_eq in En. exists a.
+  split; [exact Ha|]. split; [exact En|].
+  split; [apply (name_resolves_lem a "CycloPentane" Ha)|apply (name_resolves_lem a "CYCLOPENTANE" Ha)]; rewrite En; reflexivity.
 Qed.
